@@ -260,17 +260,46 @@ class Collector:
                 self.walk(l.test, l.cond + ((("inloop", l.id), True),), l.node)
             for n, (init, upd) in l.carried.items():
                 if upd is not None:
-                    self.walk(upd, l.cond + ((("inloop", l.id), True), (("endofbody", l.id), True)), l.node)
+                    # "unchanged on this path" (a carried value as a leaf of the update) is not a read
+                    def drop_identity(t):
+                        if isinstance(t, tuple) and t and t[0] in ("lv", "la", "unbound"):
+                            return ("const", None)  # a bare carried value at a leaf is a carry ("unchanged"), not a read
+                        if isinstance(t, tuple) and t and t[0] == "ite":
+                            return ("ite", t[1], drop_identity(t[2]), drop_identity(t[3]))
+                        return t
+                    self.walk(drop_identity(upd), l.cond + ((("inloop", l.id), True), (("endofbody", l.id), True)), l.node)
         return self.obs
 
     def walk(self, t: Any, facts: tuple, node) -> None:
         if not isinstance(t, tuple) or not t or not isinstance(t[0], str):
             return
         k = t[0]
+        if k == "unbound":
+            self.add("DEFINED", t, facts, node, f"local `{t[1]}` read on a path where it was never assigned")
+            return
+        if k in ("lv", "la") and len(t) == 3:
+            l = self.s.loops.get(t[1])
+            init = l.carried.get(t[2], (None, None))[0] if l is not None else None
+            if init is not None and any(x[0] == "unbound" for x in subterms(init)):
+                self.add("DEFINED", t, facts, node, f"local `{t[2]}` is first assigned inside the loop and read " +
+                         ("at the start of an iteration" if k == "lv" else "after the loop"))
+            elif k == "la" and l is not None and l.kind == "for" and t[2] not in l.carried and l.target is not None and \
+                    t[2] in {n.id for n in ast.walk(l.target) if isinstance(n, ast.Name)}:
+                # the loop's own target read after the loop: bound only if the loop ran (or the name is assigned elsewhere too)
+                stores = [n for n in ast.walk(self.f.node) if isinstance(n, ast.Name) and n.id == t[2] and isinstance(n.ctx, ast.Store)
+                          and not any(n is m for m in ast.walk(l.target))]
+                params = set(self.f.params()) if hasattr(self.f, "params") else set()
+                if not stores and t[2] not in params:
+                    self.add("DEFINED", t, facts, node, f"loop target `{t[2]}` read after the loop: unbound if the loop never ran")
+            return
         if k == "ite":
             self.walk(t[1], facts, node)
-            self.walk(t[2], facts + ((t[1], True),), node)
-            self.walk(t[3], facts + ((t[1], False),), node)
+            a_, p_ = literal(t[1])
+            known = {(repr(strip(x)), q) for x, q in flatten_facts(facts)}
+            if (repr(strip(a_)), not p_) not in known:
+                self.walk(t[2], facts + ((t[1], True),), node)
+            if (repr(strip(a_)), p_) not in known:
+                self.walk(t[3], facts + ((t[1], False),), node)
             return
         if k == "and":
             for i, x in enumerate(t[1]):
@@ -512,6 +541,19 @@ class Discharger:
                 return "D15 receiver is not Optional here (type, or dominating non-None fact)"
             if ob.detail == "argument of int()" and self.try_fact(ob, "builtins.TypeError"):
                 return "D10 int() of an optional group under a TypeError handler"
+            return None
+        if ob.kind == "DEFINED":
+            x = ob.term
+            if x[0] == "la":
+                # value after the loop of a variable first assigned in it: defined when the loop provably runs at least once
+                l = ob.summary.loops.get(x[1])
+                if l is not None and l.iter is not None and l.iter[0] == "call" and l.iter[1] == ("builtin", "range") and len(l.iter[2]) == 2:
+                    lo, hi = l.iter[2]
+                    for a, p in facts:
+                        ic = icmp(strip(a)) if p else icmp(("not", strip(a)))
+                        if ic is not None and ic[1] is not None and strip(ic[1]) == strip(lo) and ic[2] is not None and \
+                                strip(ic[2]) == strip(hi) and ic[3] <= -1:
+                            return "D12 variable assigned by a loop whose range is non-empty by a dominating guard"
             return None
         if ob.kind == "ORDER":
             for side in (ob.term[2], ob.term[3]):
